@@ -136,6 +136,17 @@ def tool(chk, w):
         return m[0] if m else g
     chk.ob("R19.3", "tool:same-flatten-type", ser is not None and des is not None and ty_of(ser[0][1]) == ty_of(des[0][1]) and "Flatten" in ty_of(ser[0][1]),
            "csv serialize uses %s, deserialize %s" % (ser and ty_of(ser[0][1]), des and ty_of(des[0][1])), site=C.site(b), sample={"type": ser and ty_of(ser[0][1])})
+    # csv reader and writer must be configured alike: any builder option on one side must exist on the other
+    ropt, wopt = set(), set()
+    for n_, v_ in calls.items():
+        m_ = re.match(r"csv::reader::ReaderBuilder::(\w+)$", n_)
+        if m_ and m_.group(1) not in ("new", "from_reader", "from_path", "build"):
+            ropt.add(m_.group(1))
+        m_ = re.match(r"csv::writer::WriterBuilder::(\w+)$", n_)
+        if m_ and m_.group(1) not in ("new", "from_writer", "from_path", "build"):
+            wopt.add(m_.group(1))
+    chk.ob("R19.3", "tool:csv-options-symmetric", ropt == wopt, "the csv reader is configured with %s but the writer with %s: what the dump writes is not what the replace step reads (e.g. a `comment` character makes the reader drop records the writer emits unquoted)"
+           % (sorted(ropt), sorted(wopt)), site=C.site(b), sample={"reader_options": sorted(ropt), "writer_options": sorted(wopt)})
     jn, sp = one("[T]::join"), one("str::split")
     def cst(t, i):
         v = C.chase_const(w, b, t["args"][i])
